@@ -11,13 +11,15 @@ from mvlib import unhex
 # parenthesised — and both must come out as the same Python tree and compute the value the tree denotes.
 # ---------------------------------------------------------------------------------------------------------------
 SRC_PRE = "def a := 7\ndef b := 3\ndef c := 2\ndef d := 5\ndef p := True\ndef q := False\ndef t := True\n"
-SRC_ENV = {"a": 7, "b": 3, "c": 2, "d": 5, "p": True, "q": False, "t": True}
+SRC_ENV = {"a": 7, "b": 3, "c": 2, "d": 5, "p": True, "q": False, "t": True, "2": 2, "3": 3, "10": 10, "0": 0}
 SRC_OPS = {"and": (7, "R"), "or": (7, "R"), "<": (6, "R"), "<=": (6, "R"), ">": (6, "R"), ">=": (6, "R"), "=": (6, "R"), "!=": (6, "R"),
            "+": (4, "L"), "-": (4, "L"), "*": (3, "L"), "//": (3, "L"), "mod": (3, "L"), "^": (1, "R")}
 
 
 def src_tree(rng, ty, depth):
     if depth <= 0 or rng.random() < 0.2:
+        if ty == "I" and rng.random() < 0.3:
+            return ("v", rng.choice(["2", "3", "10", "0"]))
         return ("v", rng.choice("abcd")) if ty == "I" else ("v", rng.choice("pqt"))
     r = rng.random()
     if ty == "I":
@@ -26,9 +28,9 @@ def src_tree(rng, ty, depth):
         if r < 0.6:
             return ("b", "*", src_tree(rng, "I", depth - 1), src_tree(rng, "I", depth - 1))
         if r < 0.75:
-            return ("b", rng.choice(["//", "mod"]), src_tree(rng, "I", depth - 1), ("v", rng.choice("abcd")))
+            return ("b", rng.choice(["//", "mod"]), src_tree(rng, "I", depth - 1), ("v", rng.choice(["a", "b", "c", "d", "3", "2"])))
         if r < 0.88:
-            return ("b", "^", src_tree(rng, "I", depth - 1), ("v", "c"))
+            return ("b", "^", src_tree(rng, "I", depth - 1), ("v", rng.choice(["c", "2"])))
         return ("neg", src_tree(rng, "I", depth - 1))
     if r < 0.35:
         return ("b", rng.choice(["<", "<=", ">", ">=", "=", "!="]), src_tree(rng, "I", depth - 1), src_tree(rng, "I", depth - 1))
